@@ -387,6 +387,47 @@ def _regenerate_and_frame(m, out):
     finally:
         _AUDIT["on"] = False
         shutil.rmtree(base, ignore_errors=True)
+    # unregistered (platform, board) pairs are rejected by write_project itself, before anything is written
+    bad_pairs = []
+    some_mega = next((b for b, pl in sorted(m.BOARD_TO_PLATFORM.items()) if pl == "atmelmegaavr"), None)
+    some_avr = next((b for b, pl in sorted(m.BOARD_TO_PLATFORM.items()) if pl == "atmelavr"), None)
+    base2 = Path(tempfile.mkdtemp(prefix="c13-pairs-"))
+    try:
+        k = 0
+        for plat, brd in [("", some_avr), ("", some_mega), ("atmelavr", some_mega), ("atmelmegaavr", some_avr), ("atmelavr", ""), ("atmelavr", "no_such_board"), ("esp32", some_avr),
+                          ("AtmelAVR", some_avr), ("atmelavr ", some_avr), (" atmelavr", some_avr)]:
+            for omit_platform in (False, True):
+                if omit_platform and plat != "":
+                    continue
+                d = base2 / f"p{k}"
+                d.mkdir()
+                k += 1
+                try:
+                    if omit_platform:
+                        m.write_project(d, "void setup(){}\n", "COM3", board=brd)
+                        # the default platform is atmelavr: accepted exactly when the board is an atmelavr board
+                        expect_ok = m.BOARD_TO_PLATFORM.get(brd) == "atmelavr"
+                    else:
+                        m.write_project(d, "void setup(){}\n", "COM3", platform=plat, board=brd)
+                        expect_ok = False
+                    raised = None
+                except ValueError as ex:
+                    raised = ex
+                    expect_ok = expect_ok if omit_platform and False else (m.BOARD_TO_PLATFORM.get(brd) == "atmelavr" if omit_platform else False)
+                except TypeError:
+                    continue
+                left = sorted(str(x.relative_to(d)) for x in d.rglob("*"))
+                if raised is None and not expect_ok:
+                    bad_pairs.append({"platform": None if omit_platform else plat, "board": brd, "problem": f"accepted (files written: {left})"})
+                elif raised is not None and expect_ok:
+                    bad_pairs.append({"platform": None if omit_platform else plat, "board": brd, "problem": f"rejected a registered pair: {raised}"})
+                elif raised is not None and left:
+                    bad_pairs.append({"platform": None if omit_platform else plat, "board": brd, "problem": f"rejected but left {left}"})
+    finally:
+        shutil.rmtree(base2, ignore_errors=True)
+    out.append({"name": "C13/bounded/write-project-rejects-unregistered-pairs", "status": "discharged" if not bad_pairs else "sat", "backend": "bounded-native", "bounded": True,
+                "where": "write_project with an empty / mismatched / unknown / differently spelled platform or board (and with the platform omitted) raises ValueError and writes nothing; registered pairs are accepted",
+                "time": 0.0, "replay": bad_pairs[:4], "replay_confirmed": bool(bad_pairs)})
     out.append({"name": "C13/bounded/regenerate-into-existing-project", "status": "discharged" if not bad_regen else "sat", "backend": "bounded-native", "bounded": True,
                 "where": f"{2 * len(OLD)} regenerations over an existing project (older main.cpp with other line terminators / text / encoding, older platformio.ini): afterwards src/main.cpp is the given "
                          "source byte for byte and platformio.ini describes the new port and board", "time": round(time.time() - t0, 3), "replay": bad_regen[:3], "replay_confirmed": bool(bad_regen)})
